@@ -148,10 +148,16 @@ Definition check_dangling (e : env) (height : N) (c : csets) (confirmed : bool) 
     (filter (fun h => (should_go e h (e_out_delta e) height || confirmed)
                       && negb (e_pre e (h_hash h))) pend).
 
-(* checkLocalChainActions *)
-Definition check_local (e : env) (height : N) (t : trigger) (c : csets) (confirmed : bool)
-  : actions :=
-  merge (check_commit e height t (c_local c)) (check_dangling e height c confirmed).
+(* checkLocalChainActions.  [fixed] selects the candidate fix (see
+   [closed_failback_set] below): when only a dangling remote HTLC makes the
+   chain trigger fire, the HTLCs of our own commitment are classified too. *)
+Definition check_local (fixed : bool) (e : env) (height : N) (t : trigger) (c : csets)
+           (confirmed : bool) : actions :=
+  let la := check_commit e height t (c_local c) in
+  let da := check_dangling e height c confirmed in
+  let la' := if fixed && acts_empty la && negb (acts_empty da) && is_chain t
+             then check_commit e height TUser (c_local c) else la in
+  merge la' da.
 
 (* checkRemoteDiffActions *)
 Definition check_remote_diff (e : env) (c : csets) (pending_conf : bool) : actions :=
@@ -168,9 +174,10 @@ Definition check_remote (e : env) (height : N) (t : trigger) (c : csets) (pendin
         (check_remote_diff e c pending_conf).
 
 (* constructChainActions (ConfCommitKey present) *)
-Definition construct (e : env) (height : N) (t : trigger) (k : ckey) (c : csets) : actions :=
+Definition construct (fixed : bool) (e : env) (height : N) (t : trigger) (k : ckey) (c : csets)
+  : actions :=
   match k with
-  | CLocal => check_local e height t c true
+  | CLocal => check_local fixed e height t c true
   | CRemote => check_remote e height t c false
   | CPending => check_remote e height t c true
   end.
@@ -243,8 +250,9 @@ Definition idxs (l : list htlc) : list N := map h_idx l.
    abandonForwards.  Today (fixed = false): HtlcFailDanglingAction only, so an
    HtlcFailDustAction entry computed there is never acted upon (DESIGN §7-a).
    Candidate fix (fixed = true, notes/C12-fix.diff): also the
-   HtlcFailDustAction entries that are not dust on OUR commitment (those were
-   cancelled back before we broadcast / in StateDefault).
+   HtlcFailDustAction entries that are not dust on OUR commitment (those are
+   cancelled back in StateDefault, when the node decides to act), together
+   with the [check_local] change above.
    [impl_fixed] says which variant the lnd tree under test implements; the
    correspondence run uses it, the theorems are stated for both values. *)
 Definition closed_failback_set (fixed : bool) (c : csets) (a : actions) : list htlc :=
@@ -274,8 +282,8 @@ Section Machine.
     match st with
     | SDefault =>
       let acts := match conf with
-                  | None => check_local e height t active false
-                  | Some (k, c) => construct e height t k c
+                  | None => check_local fixed e height t active false
+                  | Some (k, c) => construct fixed e height t k c
                   end in
       if acts_empty acts && is_chain t then (SDefault, no_eff)
       else
@@ -307,7 +315,7 @@ Section Machine.
       | Some r, Some (k, c) =>
         if res_empty r && cs_empty c then (SFullyResolved, no_eff)
         else
-          let acts := construct e height t k c in
+          let acts := construct fixed e height t k c in
           let ef :=
             if r_breach r
             then mkEff (nodup_n (idxs (outs (c_remote c) ++ outs (c_pending c)))) [] [] 0 0
